@@ -21,6 +21,8 @@ r = random.Random(seed * 7919 + 13)
 for i, n in enumerate([16, 64, 200, 600, 1500, 3000, 4000, 4000]):
     open(f"{d}/seed{i}", "wb").write(bytes(r.getrandbits(8) if r.random() < 0.7 else r.choice([0, 1, 2, 255]) for _ in range(n)))
 PY
+export VERIF_FUZZ_SCRATCH=/dev/shm/pvh-fuzz-scratch-$TARGET-$$
+mkdir -p "$VERIF_FUZZ_SCRATCH"
 START=$(date +%s)
 BIN=$(ls /verif/fuzz/target/*/release/$TARGET 2>/dev/null | head -1)
 "$BIN" "$CORPUS" -runs="$RUNS" -seed=$((SEED + 1)) -len_control=0 -max_len=4096 -fork="$JOBS" -artifact_prefix="$CORPUS/crash-" > "$LOG" 2>&1
@@ -32,7 +34,7 @@ NCORP=$(ls "$CORPUS" | grep -vc '^crash-')
 VIOL=$(grep -E "^VIOLATION property=" "$LOG" | sort -u)
 echo "{\"target\": \"$TARGET\", \"requested_runs\": $RUNS, \"executions\": ${EXECS:-0}, \"coverage_edges\": ${COV:-0}, \"corpus_files\": $NCORP, \"libfuzzer_exit\": $CODE, \"wall_s\": $((END-START)), \"seed\": $SEED, \"fork\": $JOBS}" > /verif/fuzz/last-$TARGET.json
 echo "[fuzz:$TARGET] executions=${EXECS:-0} cov=${COV:-0} corpus=$NCORP exit=$CODE wall=$((END-START))s"
-rm -rf /dev/shm/pearl-fuzz-* 2>/dev/null
+rm -rf "$VERIF_FUZZ_SCRATCH" 2>/dev/null
 if [ -n "$VIOL" ]; then
   echo "$VIOL"
   rm -rf "$CORPUS" "$LOG"; exit 1
